@@ -62,6 +62,7 @@ pub fn case(data: &[u8], prop: &str) -> arbitrary::Result<Case> {
         post_create: (0..cfg.post_create.len()).map(|_| outs(&mut u, 8)).collect::<arbitrary::Result<_>>()?,
         pre_recycle: (0..cfg.pre_recycle.len()).map(|_| outs(&mut u, 8)).collect::<arbitrary::Result<_>>()?,
         post_recycle: (0..cfg.post_recycle.len()).map(|_| outs(&mut u, 8)).collect::<arbitrary::Result<_>>()?,
+        detach_panic_at: None,
     };
     let mut steps = vec![];
     while !u.is_empty() && steps.len() < 80 {
